@@ -83,4 +83,13 @@ PLANS["rerun-rmdone-ok"] = P(
     submit_all("abc") + [["rmdone", "b"], ["restart"]] + submit_all("abc"),
 )
 
+PLANS["kill-restart-fail"] = P(
+    {"a": {"codes": [1]}, "b": {"deps": {"a": "direct"}}},
+    [["submit", "a"], ["kill"], ["restart"], ["submit", "a"], ["submit", "b"], ["wait"]],
+)
+PLANS["kill-restart-early"] = P(
+    {"a": {}, "b": {"deps": {"a": "list"}}, "c": {}},
+    [["submit", "a"], ["submit", "c"], ["kill"], ["restart"], ["submit", "a"], ["submit", "b"], ["submit", "c"], ["wait"]],
+)
+
 QUICK = list(PLANS)
